@@ -70,9 +70,10 @@ func (fs TarWriter) CreateSymlink(n NodeSymlink) error {
 	return fs.w.WriteHeader(hdr)
 }
 
-// We're not using os.Filemode here but the low-level system modes where the mode bits
-// are in the lower half. Can't use os.ModeCharDevice here.
-const modeChar = 0x4000
+// Nodes carry an os.FileMode (the archive decoder converts the system mode with
+// StatModeToFilemode): character devices have os.ModeCharDevice set in addition to
+// os.ModeDevice, block devices only os.ModeDevice.
+const modeChar = os.ModeCharDevice
 
 func (fs TarWriter) CreateDevice(n NodeDevice) error {
 	var typ byte = gnutar.TypeBlock
